@@ -36,6 +36,7 @@ func (fr *Frame) execInstr(in ssa.Instruction) {
 		} else {
 			t = w.Field(base, fname)
 		}
+		ex.addFact(ex.typeFacts(t, in.Type()))
 		fr.vals[in] = &GVal{T: t, Typ: in.Type()}
 	case *ssa.IndexAddr:
 		fr.indexAddr(in)
@@ -47,8 +48,8 @@ func (fr *Frame) execInstr(in ssa.Instruction) {
 			fr.oblige("safe", "index-in-range", safetyProps, And(Le(IntLit(0), idx), Lt(idx, IntLit(u.Len()))), in.Pos())
 			fr.vals[in] = &GVal{T: Select(base, idx), Typ: in.Type()}
 		case *types.Basic: // string index
-			fr.oblige("safe", "string-index-in-range", safetyProps, And(Le(IntLit(0), idx), Lt(idx, App("str.len", SInt, base))), in.Pos())
-			fr.vals[in] = &GVal{T: App("str.at", SBV8, base, idx), Typ: in.Type()}
+			fr.oblige("safe", "string-index-in-range", safetyProps, And(Le(IntLit(0), idx), Lt(idx, App("gs.len", SInt, base))), in.Pos())
+			fr.vals[in] = &GVal{T: App("gs.at", SBV8, base, idx), Typ: in.Type()}
 		default:
 			ex.unsupp("Index on %s", in.X.Type())
 		}
@@ -231,10 +232,8 @@ func (fr *Frame) unop(in *ssa.UnOp) {
 				g.Origin = p
 			}
 		}
-		// typing facts for values read from the heap
-		if p.Ref != nil {
-			ex.addFact(Implies(fr.cur, ex.typeFacts(t, in.Type())))
-		}
+		// typing facts for values read from memory (every Go value inhabits its type)
+		ex.addFact(ex.typeFacts(t, in.Type()))
 		fr.vals[in] = g
 	case token.NOT:
 		fr.vals[in] = &GVal{T: Not(fr.term(x)), Typ: in.Type()}
@@ -403,21 +402,21 @@ func (fr *Frame) binop(in *ssa.BinOp) *GVal {
 	case s == SStr:
 		switch in.Op {
 		case token.ADD:
-			r := App("str.cat", SStr, x, y)
-			ex.addFact(Eq(App("str.len", SInt, r), Add(App("str.len", SInt, x), App("str.len", SInt, y))))
+			r := App("gs.cat", SStr, x, y)
+			ex.addFact(Eq(App("gs.len", SInt, r), Add(App("gs.len", SInt, x), App("gs.len", SInt, y))))
 			return res(r)
 		case token.EQL:
 			return res(Eq(x, y))
 		case token.NEQ:
 			return res(Not(Eq(x, y)))
 		case token.LSS:
-			return res(App("str.lt", SBool, x, y))
+			return res(App("gs.lt", SBool, x, y))
 		case token.GTR:
-			return res(App("str.lt", SBool, y, x))
+			return res(App("gs.lt", SBool, y, x))
 		case token.LEQ:
-			return res(Not(App("str.lt", SBool, y, x)))
+			return res(Not(App("gs.lt", SBool, y, x)))
 		case token.GEQ:
-			return res(Not(App("str.lt", SBool, x, y)))
+			return res(Not(App("gs.lt", SBool, x, y)))
 		}
 	case s == SBool:
 		switch in.Op {
@@ -602,7 +601,7 @@ func (fr *Frame) sliceOp(in *ssa.Slice) {
 		fr.vals[in] = g
 	case *types.Basic: // string
 		s := fr.term(x)
-		sl := App("str.len", SInt, s)
+		sl := App("gs.len", SInt, s)
 		if lo == nil {
 			lo = IntLit(0)
 		}
@@ -610,8 +609,8 @@ func (fr *Frame) sliceOp(in *ssa.Slice) {
 			hi = sl
 		}
 		fr.oblige("safe", "string-slice-bounds", safetyProps, And(Le(IntLit(0), lo), Le(lo, hi), Le(hi, sl)), in.Pos())
-		r := App("str.sub", SStr, s, lo, hi)
-		ex.addFact(Implies(fr.cur, Eq(App("str.len", SInt, r), subT(hi, lo))))
+		r := App("gs.sub", SStr, s, lo, hi)
+		ex.addFact(Implies(fr.cur, Eq(App("gs.len", SInt, r), subT(hi, lo))))
 		fr.vals[in] = &GVal{T: r, Typ: in.Type()}
 	default:
 		ex.unsupp("Slice on %s", in.X.Type())
@@ -654,8 +653,8 @@ func (fr *Frame) lookup(in *ssa.Lookup) {
 	k := fr.term(fr.val(in.Index))
 	if b, ok := in.X.Type().Underlying().(*types.Basic); ok && b.Info()&types.IsString != 0 {
 		s := fr.term(x)
-		fr.oblige("safe", "string-index-in-range", safetyProps, And(Le(IntLit(0), k), Lt(k, App("str.len", SInt, s))), in.Pos())
-		fr.vals[in] = &GVal{T: App("str.at", SBV8, s, k), Typ: in.Type()}
+		fr.oblige("safe", "string-index-in-range", safetyProps, And(Le(IntLit(0), k), Lt(k, App("gs.len", SInt, s))), in.Pos())
+		fr.vals[in] = &GVal{T: App("gs.at", SBV8, s, k), Typ: in.Type()}
 		return
 	}
 	m := fr.mapTerm(x)
@@ -721,19 +720,19 @@ func (fr *Frame) convert(in *ssa.Convert) *GVal {
 		return res(App("(_ to_fp 11 53)", SF64, mk("RNE", mkSort("RoundingMode")), App("to_real", mkSort("Real"), x)))
 	case fok && tok && x.S.IsBV() && ts == SStr && tb.Kind() == types.String:
 		// string(rune)
-		r := App("str.fromRune", SStr, bvResize(x, 32, true))
-		ex.addFact(And(Le(IntLit(1), App("str.len", SInt, r)), Le(App("str.len", SInt, r), IntLit(4))))
+		r := App("gs.fromRune", SStr, bvResize(x, 32, true))
+		ex.addFact(And(Le(IntLit(1), App("gs.len", SInt, r)), Le(App("gs.len", SInt, r), IntLit(4))))
 		return res(r)
 	case fok && fb.Kind() == types.String:
 		if sl, ok := to.(*types.Slice); ok {
 			es := w.SortOf(sl.Elem())
-			fn := "str.to_" + sortIdent(es)
+			fn := "gs.to_" + sortIdent(es)
 			si := w.sliceSort(es)
 			ex.p.DeclareFun(fn, []*Sort{SStr}, si.S)
 			r := App(fn, si.S, x)
-			ex.addFact(And(Le(IntLit(0), w.SlLen(r)), Le(w.SlLen(r), App("str.len", SInt, x)), Not(w.SlNil(r))))
+			ex.addFact(And(Le(IntLit(0), w.SlLen(r)), Le(w.SlLen(r), App("gs.len", SInt, x)), Not(w.SlNil(r))))
 			if es == SBV8 {
-				ex.addFact(Eq(w.SlLen(r), App("str.len", SInt, x)))
+				ex.addFact(Eq(w.SlLen(r), App("gs.len", SInt, x)))
 			}
 			g := res(r)
 			g.Fresh = TTrue
@@ -745,13 +744,13 @@ func (fr *Frame) convert(in *ssa.Convert) *GVal {
 	case tok && tb.Kind() == types.String:
 		if sl, ok := from.(*types.Slice); ok {
 			es := w.SortOf(sl.Elem())
-			fn := "str.from_" + sortIdent(es)
+			fn := "gs.from_" + sortIdent(es)
 			si := w.sliceSort(es)
 			ex.p.DeclareFun(fn, []*Sort{si.S}, SStr)
 			r := App(fn, SStr, x)
-			ex.addFact(And(Le(IntLit(0), App("str.len", SInt, r))))
+			ex.addFact(And(Le(IntLit(0), App("gs.len", SInt, r))))
 			if es == SBV8 {
-				ex.addFact(Eq(w.SlLen(x), App("str.len", SInt, r)))
+				ex.addFact(Eq(w.SlLen(x), App("gs.len", SInt, r)))
 			}
 			return res(r)
 		}
@@ -876,10 +875,12 @@ func (fr *Frame) typeAssert(in *ssa.TypeAssert) *GVal {
 		val = ex.p.FreshConst("taval", w.SortOf(at))
 	}
 	if in.CommaOk {
+		ex.addFact(Implies(And(fr.cur, ok), ex.typeFacts(val, at)))
 		v := Ite(ok, val, ex.zero(at))
 		return &GVal{Tuple: []*GVal{{T: v, Typ: at, Fresh: fresh}, {T: ok, Typ: types.Typ[types.Bool]}}, Typ: in.Type()}
 	}
 	fr.oblige("safe", "type-assertion("+types.TypeString(at, func(*types.Package) string { return "" })+")", []string{"C05", "C10"}, ok, in.Pos())
+	ex.addFact(Implies(fr.cur, ex.typeFacts(val, at)))
 	return &GVal{T: val, Typ: at, Fresh: fresh}
 }
 
